@@ -32,7 +32,8 @@ EXPLANATION = (
     'arguments with squares rotated by 180 degrees, side to move inverted, score negated).'
     ' (5) addSubWeights only loads, stores and applies wrapping 16-bit add / subtract in matching numbers (no clamp, no saturating intrinsic) in every build variant, and the full refresh uses the same routine as the incremental update.'
     ' Added later; (7) the classification pass endGameEval<false>, whose result is cached under the material signature alone, branches only on functions of the material (signature, sums, piece counts, presence tests; sums of square-restricted counts over a partition of the board count as piece counts).'
-    ' Added later; (8) no right shift of a signed value that may be negative in Evaluate / EndGameEval (reaching definitions prove non-negativity).')
+    ' Added later; (8) no right shift of a signed value that may be negative in Evaluate / EndGameEval (reaching definitions prove non-negativity).'
+    ' Added later; (9) computeL1WB keeps an accumulator only while the king square is unchanged, or under a key that is as fine as getIndex (both interpreted for all 64 x 10 x 64 x 2 arguments).')
 UNDECIDED = ('numerical equality of incremental and from-scratch network outputs and of the SIMD kernels beyond the group-structure clause 5 (value-level), '
              'left-right mirror symmetry of the network, endgame cases that are written inline rather than as helper calls (listed as not covered).')
 ASSUMPTIONS = ['position domain: at most 30 non-king men', 'the helper evaluations (k*Eval) themselves are written from white\'s point of view']
@@ -52,6 +53,7 @@ def run(fb, rep, tier):
     c6_invalidate_current(fb, rep)
     c7_classification_is_material(fb, rep)
     c8_odd_arithmetic(fb, rep)
+    c9_accumulator_reuse(fb, rep)
 
 
 # SIMD kernels are selected by compile definitions: the thorough tier re-runs the rules on these builds too
@@ -947,3 +949,85 @@ def c8_odd_arithmetic(fb, rep):
     rep.ob(clause, 'K10 odd arithmetic', 'the evaluation never right-shifts a signed value that may be negative (a shift rounds towards minus infinity: colour-swapped positions would differ)',
            not bad, '%s' % (bad[0][1] if bad else ''), '%d shift(s) of signed values; possibly negative: %s' % (n, bad[:3]), bad[0][0] if bad else 'Evaluate')
     rep.counts['%s signed right shifts in the evaluation' % clause] = (n, 0)
+
+
+# ----------------------------------------------------------------------------- .9
+
+def c9_accumulator_reuse(fb, rep):
+    """K10 agreement between the reuse test and the index function.  The first-layer accumulator of a side is a sum of weight
+    rows getIndex(kingSq, piece, square, side); it may be kept and updated incrementally only while *every* row index is
+    unchanged by the king's move, i.e. while getIndex(k_old, p, s) == getIndex(k_new, p, s) for all pieces and squares.
+    Comparing the king squares themselves is trivially sufficient.  If computeL1WB compares them through a function g
+    instead (a "bucket"), g must be at least as fine as getIndex: for every two squares g cannot tell apart, getIndex is
+    evaluated for every piece type, square and side and must agree (the mirror flag of the e-h files is part of it)."""
+    from ..peval import Evaluator, Unknown
+    clause = 'C07.9'
+    f = fb.find1('NNEvaluator::computeL1WB')
+    gi = [g for g in fb.funcs.values() if g.has_cfg and g.sname == 'getIndex' and (g.file or '').endswith('nneval.cpp')]
+    if rep.need(clause, f, 'NNEvaluator::computeL1WB') is None or rep.need(clause, gi, 'getIndex in nneval.cpp') is None:
+        return
+    gi = gi[0]
+    decisions = []
+    for b, i, e in f.events():
+        if e.get('k') == 'asg' and e.get('op') == '=' and e.get('t') == 'bool' and any(n.get('k') == 'mem' and (n.get('f') or '').endswith('kingSqComputed') for n in walk(e.get('r') or {})):
+            decisions.append((b, i, e))
+    rep.floor(clause, 'reuse decisions on the stored king square', len(decisions), 1)
+    sq_field = ((fb.record('Square') or {}).get('fields') or [{}])[0].get('n', 'sq')
+
+    def square_method(ev, t, env, depth):
+        callee = fb.funcs.get(t.get('f'))
+        if callee is None or not callee.has_cfg:
+            raise Unknown('Square method ' + cname(t))
+        recv = ev.eval(t.get('recv'), env, depth)
+        cenv = {'this.' + sq_field: recv}
+        for p_, a_ in zip(callee.d.get('params', []), t.get('args', [])):
+            cenv[('v', p_['id'])] = ev.eval(a_, env, depth)
+        return ev.run(callee, cenv, depth + 1)['ret']
+    stubs = {}
+    for g in fb.funcs.values():
+        if g.has_cfg and g.d.get('cls') == 'Square' and not g.d.get('ctor'):
+            stubs[g.sname] = square_method
+    ev = Evaluator(fb, stubs=stubs)
+
+    def run_fn(fn, args):
+        env = {}
+        for p_, a_ in zip(fn.d.get('params', []), args):
+            env[('v', p_['id'])] = a_
+        return ev.run(fn, env)['ret']
+    for b, i, e in decisions:
+        # functions of the repo applied to a king square inside the decision (other than Square's own comparison / validity)
+        gs = []
+        for n in walk(e.get('r')):
+            if n.get('k') == 'call' and n.get('repo') and fb.funcs.get(n.get('f')) is not None and (fb.funcs[n['f']].d.get('cls') != 'Square') and \
+                    any(x.get('k') in ('mem', 'idx', 'var') and 'Square' in str(x.get('t', '')) for a in n.get('args', []) for x in walk(a)):
+                gs.append(fb.funcs[n['f']])
+        if not gs:
+            direct = any(n.get('k') == 'call' and cname(n) in ('Square::operator!=', 'Square::operator==') for n in walk(e.get('r')))
+            rep.ob(clause, 'K10 reuse/index agreement', 'computeL1WB keeps an accumulator only while the king square itself is unchanged', direct, R.site(f, e),
+                   'decision: %s' % show(e.get('r'), 90), f.sname)
+            continue
+        g = gs[0]
+        bad = []
+        try:
+            n_par = len(g.d.get('params', []))
+            for white in (1, 0):
+                cls = {}
+                for sq in range(64):
+                    key = run_fn(g, [sq, white][:n_par])
+                    cls.setdefault(key, []).append(sq)
+                for key, sqs in cls.items():
+                    for a in sqs[1:]:
+                        for pt in range(10):
+                            for s_ in range(64):
+                                if run_fn(gi, [sqs[0], pt, s_, white]) != run_fn(gi, [a, pt, s_, white]):
+                                    if len(bad) < 2:
+                                        bad.append('king %d vs %d (%s): getIndex differs for piece %d on square %d' % (sqs[0], a, 'white' if white else 'black', pt, s_))
+                                    break
+                            else:
+                                continue
+                            break
+        except Unknown as ex:
+            rep.broken(clause, 'the reuse test %s / getIndex are not evaluable: %s' % (g.sname, ex))
+            return
+        rep.ob(clause, 'K10 reuse/index agreement', 'computeL1WB keeps an accumulator only while every weight-row index is unchanged by the king\'s move', not bad, R.site(f, e),
+               'reuse test through %s; %s' % (g.sname, bad or 'as fine as getIndex for all 64 x 10 x 64 x 2 arguments'), f.sname)
